@@ -741,7 +741,7 @@ def plan_C20(tier, seed):
 
 
 def _nt_growth(ev):
-    return (ev["k"], json.dumps({k2: v for k2, v in ev.items() if k2.endswith("f") or k2 in ("n", "pl")}, sort_keys=True))
+    return (ev["k"], json.dumps({k2: v for k2, v in ev.items() if k2.endswith("f") or k2 in ("n", "pl", "in", "el", "y", "m", "d")}, sort_keys=True))
 
 
 def plan_GROWTH(tier, seed):
@@ -753,7 +753,11 @@ def plan_GROWTH(tier, seed):
           Shard("magnitude", drv_growth.gen_magnitude, dict(seed=seed, n=1500 * k), *T),
           Shard("moonk", drv_growth.gen_moonk, dict(seed=seed, n=300 * k), *T),
           Shard("jsat", drv_growth.gen_jsat, dict(seed=seed, n=400 * k), *T),
-          Shard("physical", drv_growth.gen_physical, dict(seed=seed, n=400 * k), *T)]
+          Shard("physical", drv_growth.gen_physical, dict(seed=seed, n=400 * k), *T),
+          Shard("statics", drv_growth.gen_statics, dict(seed=seed, n=1500 * k), *T),
+          Shard("elements", drv_growth.gen_elements, dict(seed=seed, n=600 * k), *T),
+          Shard("geometry", drv_growth.gen_geometry, dict(seed=seed, n=500 * k), *T),
+          Shard("minorhelio", drv_growth.gen_minorhelio, dict(seed=seed, n=600 * k), *T)]
     return dict(mc=[], shards=sh, level="model_checking", exhaustive=False, nontrivial=_nt_growth,
                 rule="growth suite (not a listed property): refraction pair, Carrington rotations, Epoch/Angle numeric views, magnitude "
                      "inverse-square law, Moon illuminated fraction at the library's own new/full moons, Galilean satellite radii and continuity",
